@@ -23,6 +23,8 @@ pub enum FOp {
     Wake,
     /// sleep first (fault-free), then the faulted wake
     SleepThenWake,
+    /// TestImage::draw on the display
+    TestImage,
 }
 
 #[derive(Clone, Debug, PartialEq, Eq, Hash, Serialize, Deserialize)]
@@ -49,6 +51,7 @@ fn run_op(d: &mut dyn Dut, op: &FOp) -> Result<(), DutErr> {
         FOp::Tearing(t) => d.set_tearing_effect(*t),
         FOp::Sleep => d.sleep(),
         FOp::Wake | FOp::SleepThenWake => d.wake(),
+        FOp::TestImage => d.draw_test_image(),
     }
 }
 
@@ -293,6 +296,9 @@ pub fn post_init_ops(cfg: &Config) -> Vec<FOp> {
         FOp::Draw(DrawOp::FillContiguous { rect: Rect { x: -1, y: 0, w: lw + 1, h: lh.min(2) }, len: StreamLen::Infinite, seed: 3 }),
         FOp::Draw(DrawOp::FillSolid { rect: Rect { x: 0, y: 0, w: lw, h: lh.min(2) }, seed: 4 }),
         FOp::Draw(DrawOp::FillSolid { rect: Rect { x: 0, y: 0, w: 2.min(lw), h: 1 }, seed: 0x0 }),
+        // black and a uniform-byte colour: transports have strobe-only / single-byte paths for these
+        FOp::Draw(DrawOp::FillSolid { rect: Rect { x: 0, y: 0, w: lw, h: lh.min(3) }, seed: UNIFORM_SEED_BASE }),
+        FOp::Draw(DrawOp::FillSolid { rect: Rect { x: 1.min(lw as i32 - 1), y: 0, w: lw, h: 2 }, seed: UNIFORM_SEED_BASE + 3 }),
         FOp::Draw(DrawOp::Clear { seed: 5 }),
         FOp::Orientation(Orient { rot: 2, mirrored: true }),
         FOp::ScrollRegion(3, 4),
@@ -495,6 +501,32 @@ fn reinit_cases(models: &[ModelId], transports: &[Transport]) -> Result<Vec<Rein
     Ok(out)
 }
 
+fn test_image_cases(models: &[ModelId]) -> Result<Vec<FaultCase>, String> {
+    let mut out = Vec::new();
+    for &model in models {
+        for t in [Transport::Spi { buf: 64 }, Transport::Rec8] {
+            if !type_compatible(model, t) || !supported(model, t.kind()) {
+                continue;
+            }
+            let mut cfg = Config::full(model, t);
+            let (fw, fh) = model.fb();
+            if fw < 34 || fh < 36 {
+                continue;
+            }
+            cfg.w = 34;
+            cfg.h = 36;
+            cfg.ox = 3;
+            cfg.oy = 1;
+            cfg.orient = Orient { rot: 3, mirrored: true };
+            let n = dry_run(&cfg, &FOp::TestImage)?;
+            for k in 0..n {
+                out.push(FaultCase { cfg: cfg.clone(), op: FOp::TestImage, k, k2: None, late: false });
+            }
+        }
+    }
+    Ok(out)
+}
+
 fn sig(c: &FaultCase, reason: &str) -> String {
     let kind = if reason.contains("swallowed") {
         "swallowed"
@@ -551,6 +583,17 @@ pub fn run(ctx: &Ctx) -> Report {
     let op_models: Vec<ModelId> = if thorough { ALL_MODELS.iter().copied().filter(|m| m.fb().0 >= 5 && m.fb().1 >= 4).collect() } else { vec![ModelId::ST7789, ModelId::ILI9341Rgb666, ModelId::ILI9486Rgb565, ModelId::GC9A01, ModelId::E7x5, ModelId::EHuge] };
     let op_transports = vec![Transport::Spi { buf: 7 }, Transport::Spi { buf: 64 }, Transport::Par8, Transport::Par16, Transport::Rec8, Transport::Rec16];
     match enumerate(&op_models, &op_transports, false, true, false) {
+        Ok(cases) => run_enumerated(&mut sec, cases, ctx.workers, check, sig),
+        Err(e) => sec.violations.push(Violation { reason: e, case: Value::Null, signature: "c12:dry-run-failed".into() }),
+    }
+    rep.sections.push(sec);
+
+    let mut sec = Section::new(
+        &format!("test-image-faults[{}]", ctx.variant),
+        "TestImage::draw on a 34x36 window (rotated 270 degrees, mirrored) through SPI and the recording interface, every low-level operation k failed in turn: error reported, nothing further issued, and the display still draws afterwards",
+    );
+    sec.exhaustive = true;
+    match test_image_cases(&[ModelId::ST7789, ModelId::ILI9341Rgb666]) {
         Ok(cases) => run_enumerated(&mut sec, cases, ctx.workers, check, sig),
         Err(e) => sec.violations.push(Violation { reason: e, case: Value::Null, signature: "c12:dry-run-failed".into() }),
     }
